@@ -3001,6 +3001,8 @@ pub struct VerifState {
     pub row_lexemes: Vec<Vec<u32>>,
     /// lexemes possible in the lexer start state of rows 0..num_rows (what the row allows, plus skip)
     pub row_allowed: Vec<Vec<u32>>,
+    /// lexemes of the lexer state on top of the stack: possible, accepting, chosen by the lowest-match rule
+    pub lexer_top: (Vec<u32>, Vec<u32>, Vec<u32>),
 }
 
 #[cfg(feature = "llg_verif")]
@@ -3008,6 +3010,16 @@ impl Parser {
     /// contents of the (possibly shared) lexer state table, indexed by `StateID::as_usize()`
     pub fn verif_lexer_table(&self) -> Vec<Vec<u32>> {
         self.shared.lock().unwrap().lexer().dfa.verif_state_table()
+    }
+
+    /// the lexeme table: regex as a byte-level s-expression (if exportable), lazy flag, and the
+    /// specification's flags (is_skip, skip once, ends_at_eos, is_suffix, token ranges, is_extra, class)
+    #[allow(clippy::type_complexity)]
+    pub fn verif_lexemes(&self) -> Vec<(Option<String>, bool, (bool, bool, bool, bool, bool, bool, u32))> {
+        let sh = self.shared.lock().unwrap();
+        let rx = sh.lexer().dfa.verif_lexeme_rx();
+        let fl = sh.lexer().lexer_spec().verif_lexeme_flags();
+        rx.into_iter().zip(fl).map(|((r, lazy), f)| (r, lazy, f)).collect()
     }
 
     pub fn verif_state(&self) -> VerifState {
@@ -3048,6 +3060,10 @@ impl Parser {
                 .as_ref()
                 .map(|c| (c.lexer_state.as_u32(), c.row_idx, c.has_pending_lexeme_bytes)),
             lexer_stack_top_eos: s.lexer_stack_top_eos,
+            lexer_top: {
+                let sh = self.shared.lock().unwrap();
+                sh.lexer().dfa.verif_state_lexemes(s.lexer_state().lexer_state)
+            },
             row_allowed: {
                 let sh = self.shared.lock().unwrap();
                 s.rows
